@@ -188,13 +188,34 @@ def untilStep (st : WaitState) (o : Opts) (script : String) (impl : String) : Wa
 
 /-! ### server watchdog -/
 
-/-- parse `v:123,i:456` → [(time µs, good key)] -/
-def parseSent (s : String) : Option (List (Nat × Bool)) :=
+/-- parse `v:123,i:456,c:789` → [(time µs, kind)]: v / i / j = ping with a valid key / a wrong key / a valid key
+    that the Ping plugin rejects; n / e = NewProxy (registered / refused); c = CloseProxy; h = NatHoleReport -/
+def parseSent (s : String) : Option (List (Nat × String)) :=
   if s = "-" then some [] else
   (s.splitOn ",").mapM (fun it =>
     match it.splitOn ":" with
-    | [k, t] => t.toNat?.map (fun t => (t, k == "v"))
+    | [k, t] => t.toNat?.map (fun t => (t, k))
     | _ => none)
+
+def wdInsert (x : Nat × Liveness.Ev) : List (Nat × Liveness.Ev) → List (Nat × Liveness.Ev)
+  | [] => [x]
+  | y :: ys => if x.1 < y.1 then x :: y :: ys else y :: wdInsert x ys
+
+/-- what the scripted client wrote, as the liveness model sees it: a ping is valid when the Ping plugin and
+    VerifyPing accept it (wrong key: only looked at with the HeartBeats scope); everything else is other
+    traffic of the kind the server's registerMsgHandlers gives it -/
+def wdEvents (scope : Bool) (sent : List (Nat × String)) : List (Nat × Liveness.Ev) :=
+  let kind (n : String) := C14.kindIn Gen.SessFacts.serverClockRefresh n
+  (sent.filterMap (fun (t, k) =>
+    match k with
+    | "v" => some (t, Liveness.Ev.beat true)
+    | "i" => some (t, Liveness.Ev.beat (!scope))
+    | "j" => some (t, Liveness.Ev.beat false)
+    | "n" => some (t, Liveness.Ev.other (kind "NewProxy"))
+    | "e" => some (t, Liveness.Ev.other (kind "NewProxy"))
+    | "c" => some (t, Liveness.Ev.other (kind "CloseProxy"))
+    | "h" => some (t, Liveness.Ev.other (kind "NatHoleReport"))
+    | _ => none)).foldr wdInsert []
 
 /-- closure tolerance below the bound (the harness' `t0` is read after the server stored lastPing) -/
 def earlyTolUs : Nat := 30000
@@ -209,6 +230,10 @@ def parseWdItem (s : String) : Option WdItem :=
   match s.toList with
   | 'v' :: _ => some .ping
   | 'i' :: _ => some .ping
+  | 'j' :: _ => some .ping
+  | 'c' :: _ => some .ping       -- CloseProxy of an unknown name, a refused NewProxy, a NatHoleReport: handled and gone
+  | 'e' :: _ => some .ping
+  | 'h' :: _ => some .ping
   | 'x' :: _ => some .cut
   | 'n' :: rest =>
     match (String.ofList rest).splitOn "/" with
@@ -252,19 +277,23 @@ def wdParsePx (s : String) : Option (List (String × String)) :=
     | [_, r1, r2] => some (r1, r2)
     | _ => none)
 
-def wdCheck (T : Nat) (scope : Bool) (items : List WdItem) (kind : String) (c : Nat) (sent : List (Nat × Bool))
+def wdCheck (T : Nat) (scope : Bool) (items : List WdItem) (kind : String) (c : Nat) (sent : List (Nat × String))
     (pok perr : Nat) (px : List (String × String)) : Option String × Bool :=
   let Tus := T * 1000000
   let cfg := Watchdog.serverCfg (Int.ofNat T) 1000000
   -- valid = plugin chain + VerifyPing pass: with the HeartBeats scope the key must match
-  let evs : List (Nat × Watchdog.Ev) := sent.map (fun (t, good) => (t, Watchdog.Ev.beat (good || !scope)))
-  let st := Watchdog.run cfg { last := 0 } evs
-  let last := st.last
+  let levs := wdEvents scope sent
+  let evs : List (Nat × Watchdog.Ev) := Liveness.proj levs
+  -- the property: only a verified Ping moves the clock (the strict policy), whatever else was sent
+  let last := (Liveness.run {} cfg { last := 0 } levs).last
+  -- the model: the policy the source has (the same, see C14.code_clock_strict)
+  let mlast := (Liveness.run C14.codeServerPolicy cfg { last := 0 } levs).last
   let hasCut := items.any (fun i => match i with | .cut => true | _ => false)
   -- closed by the server: in (last+T, last+T+P+slack];  cut by the script: the watchdog was not yet due
-  let propT :=
+  let propAt (last : Nat) :=
     if kind = "cut" then C14.detectHolds Tus 1000000 slackUs earlyTolUs last none c
     else C14.detectHolds Tus 1000000 slackUs earlyTolUs last (if kind = "closed" then some c else none) c
+  let propT := propAt last
   -- a session that is over holds nothing: the fresh session's registrations are accepted
   let model := SessEnd.run (SessEnd.init C14.codeAsync) (wdSchedule items px.length)
   let modelFree := model.torn && decide (SessEnd.Released model)
@@ -274,9 +303,10 @@ def wdCheck (T : Nat) (scope : Bool) (items : List WdItem) (kind : String) (c : 
   let nInvalid := evs.length - nValid
   let held := items.any (fun i => match i with | .newProxy _ h => h > 0 | _ => false)
   let problem :=
-    if kind = "open" then some "expected-closed"
+    if kind = "open" ∧ propAt mlast then none       -- (a lenient policy in the source: the model follows it, the property fails)
+    else if kind = "open" then some "expected-closed"
     else if kind = "cut" ∧ !hasCut then some "unexpected-cut"
-    else if !propT then some s!"closed-in({last + Tus},{last + Tus + 1000000}+slack]"
+    else if !propAt mlast then some s!"closed-in({mlast + Tus},{mlast + Tus + 1000000}+slack]"
     else if modelFree ∧ !propR then some "torn-down-session-holds-nothing"
     else if !modelFree then some "model-not-released"
     else if pok > nValid ∨ perr > nInvalid then some s!"pongs≤{nValid}/{nInvalid}"
@@ -311,6 +341,7 @@ def msToNs (ms : Nat) : Nat := ms * 1000000
 inductive WkEv
   | req (t : Nat)               -- ReqWorkConn written
   | rel (t : Nat) (w : Nat)     -- StartWorkConn written on / close of the w-th work connection that arrived
+  | oth (t : Nat) (k : Nat)     -- NewProxyResp / NatHoleResp written (k = the kind the client's registerMsgHandlers gives it)
 
 structure WorkRec where
   arrived : Nat                 -- NewWorkConn received while the control connection was up
@@ -330,6 +361,8 @@ structure ConnRec where
 def parseWkEv (s : String) : Option WkEv :=
   match s.toList with
   | 'q' :: r => (String.ofList r).toNat?.map .req
+  | 'w' :: r => (String.ofList r).toNat?.map (fun t => .oth t (C14.kindIn Gen.SessFacts.clientClockRefresh "NewProxyResp"))
+  | 'h' :: r => (String.ofList r).toNat?.map (fun t => .oth t (C14.kindIn Gen.SessFacts.clientClockRefresh "NatHoleResp"))
   | c :: r =>
     if c = 's' ∨ c = 'z' then
       match (String.ofList r).splitOn "." with
@@ -434,6 +467,7 @@ def dispHistory (item : CwItem) (pings : List Nat) (w : WorkRec) (checks : Bool)
     match e with
     | .req tq => if tq ≤ reqBefore then evs := dispInsert (tq, .send .reqWork) evs
     | .rel tr wi => evs := dispInsert (tr, .release wi) evs
+    | .oth to k => evs := dispInsert (to, .send (.other k)) evs
   if checks then
     for q in List.range (w.endMs / 1000) do
       evs := dispInsert ((q + 1) * 1000, .check) evs
@@ -442,7 +476,8 @@ def dispHistory (item : CwItem) (pings : List Nat) (w : WorkRec) (checks : Bool)
 /-- returns (problem?, late requests): the model with the code's registration mode against what the
     scripted server saw -/
 def dispCheck (I T : Nat) (k : Nat) (item : CwItem) (r : ConnRec) (w : WorkRec) (carry : Nat) : Option String × Nat :=
-  let cfg : Dispatch.Cfg := { wd := Watchdog.clientCfg (Int.ofNat I) (Int.ofNat T) 1000, asyncReq := C14.codeReqAsync }
+  let cfg : Dispatch.Cfg := { wd := Watchdog.clientCfg (Int.ofNat I) (Int.ofNat T) 1000, asyncReq := C14.codeReqAsync,
+                              policy := C14.codeClientPolicy }
   let all := Dispatch.erun cfg {} (dispHistory item r.pings w false w.endMs)
   let early := Dispatch.erun cfg {} (dispHistory item r.pings w false (w.endMs - 300))
   let timed := Dispatch.erun cfg {} (dispHistory item r.pings w true w.endMs)
